@@ -518,7 +518,21 @@ def panel_configs_structured(verif_seed, tier="quick"):
                       ("product", {"k": "product", "args": [G(4), G(4)]}), ("transpose", {"k": "transpose_cls", "of": G(4)}),
                       ("adjoint-complex", {"k": "adjoint_cls", "of": Gc(4)}), ("T-complex", {"k": "T", "of": Gc(4)}),
                       ("H-of-sum-complex", {"k": "H", "of": {"k": "sum", "args": [Gc(3), Gc(3)]}}),
-                      ("sum-dense-generic", {"k": "sum", "args": [{"k": "dense", "n": 4, "seed": g.randrange(1 << 20), "sym": "gen"}, G(4)]})]:
+                      ("sum-dense-generic", {"k": "sum", "args": [{"k": "dense", "n": 4, "seed": g.randrange(1 << 20), "sym": "gen"}, G(4)]}),
+                      # scaling factors (Diagonal / ScalarMul) in first / last / middle position of a product, alone and nested:
+                      # where a rule pulls them out the index window depends on the side and on the sign of k
+                      ("product-diag-last", {"k": "product", "args": [G(4), D(4)]}),
+                      ("product-diag-first", {"k": "product", "args": [D(4), G(4)]}),
+                      ("product-3-diag-last", {"k": "product", "args": [G(4), G(4), D(4)]}),
+                      ("product-diag-both", {"k": "product", "args": [D(4), G(4), D(4)]}),
+                      ("product-dense-diag", {"k": "product", "args": [{"k": "dense", "n": 4, "seed": g.randrange(1 << 20), "sym": "gen"}, D(4)]}),
+                      ("product-scalar-first", {"k": "product", "args": [{"k": "scalar", "c": 2.5, "n": 4}, G(4)]}),
+                      ("product-scalar-last", {"k": "product", "args": [G(4), {"k": "scalar", "c": -1.5, "n": 4}]}),
+                      ("sum-with-diag", {"k": "sum", "args": [G(4), D(4)]}),
+                      ("T-of-product-diag-last", {"k": "T", "of": {"k": "product", "args": [G(4), D(4)]}}),
+                      ("sliced-generic", {"k": "getitem", "of": G(5), "s0": [0, 4], "s1": [1, 5]}),
+                      ("kronsum", {"k": "kronsum", "args": [G(2), G(2)]}),
+                      ("blockdiag", {"k": "blockdiag", "args": [G(2), G(2)]})]:
         for kk in (1, -1, 2):
             out.append({"via": "dispatch", "what": "diag", "name": name + "/k=%d" % kk, "recipe": rec, "k": kk,
                         "rand": g.choice(["normal", "rademacher"]), "max_iters": 1})
